@@ -4,6 +4,7 @@ import contextlib
 import html
 import io
 import os
+import pathlib
 import math
 import re
 
@@ -175,7 +176,8 @@ def cases(draw):
     return {"scopes": scopes, "ops": ops, "observer": draw(st.sampled_from(["console", "html", "ipython"])),
             "driver": draw(st.sampled_from(["direct", "direct", "thread"])),
             "sched": draw(harness.schedules(det_only=True)),
-            "intervals": draw(st.sampled_from([[0, 0, 0], [3, 30, 300], [1, 1, 10], [0, 5, 5]]))}
+            "intervals": draw(st.sampled_from([[0, 0, 0], [3, 30, 300], [1, 1, 10], [0, 5, 5]])),
+            "html_to": draw(st.sampled_from(["callable", "callable", "path", "pathlib"]))}
 
 
 def progress_string(c, f, r, t):
@@ -227,6 +229,28 @@ class Model:
             self.running -= 1
 
 
+class PathSink:
+    """The HTML display writing to a report file (str or pathlib path) instead of a callable: the 'renderings' are
+    whatever the file holds."""
+
+    def __init__(self, as_pathlib):
+        import tempfile
+        self.dir = tempfile.mkdtemp(prefix="c20-")
+        self.path = os.path.join(self.dir, "progress.html")
+        self.arg = pathlib.Path(self.path) if as_pathlib else self.path
+
+    def __bool__(self):
+        return os.path.exists(self.path)
+
+    def __getitem__(self, i):
+        with open(self.path, "rb") as f:
+            return f.read()
+
+    def cleanup(self):
+        import shutil
+        shutil.rmtree(self.dir, ignore_errors=True)
+
+
 def make_observer(kind, intervals, sink):
     from uberjob.progress._console_progress_observer import ConsoleProgressObserver
     from uberjob.progress._html_progress_observer import HtmlProgressObserver
@@ -236,7 +260,7 @@ def make_observer(kind, intervals, sink):
     if kind == "console":
         return ConsoleProgressObserver(**kw)
     if kind == "html":
-        return HtmlProgressObserver(sink.append, **kw)
+        return HtmlProgressObserver(sink.arg if isinstance(sink, PathSink) else sink.append, **kw)
     return IPythonProgressObserver(**kw)
 
 
@@ -278,9 +302,22 @@ def check_case(ctx, case, record=True):
     if record:
         ctx.case(case, len(scopes) >= 2 and (unord or mixed) and renders_between,
                  [f"observer:{case['observer']}", f"driver:{case['driver']}"] + (["unorderable"] if unord else [])
+                 + ([f"html_to:{case.get('html_to', 'callable')}"] if case["observer"] == "html" else [])
                  + (["mixed_types"] if mixed else []) + (["burst>=120"] if any(op[0] == "burst" for op in case["ops"]) else []))
     clock = detsched.FakeTime(1000.0)
     sink = []
+    if case["observer"] == "html" and case.get("html_to") in ("path", "pathlib"):
+        sink = PathSink(case["html_to"] == "pathlib")
+        try:
+            return _check_case_body(ctx, case, record, scopes, driver, clock, sink)
+        finally:
+            sink.cleanup()
+    return _check_case_body(ctx, case, record, scopes, driver, clock, sink)
+
+
+def _check_case_body(ctx, case, record, scopes, driver, clock, sink):
+    import uberjob.progress._simple_progress_observer as spo
+
     model = Model(scopes)
     stdout = io.StringIO()
     obs_box = {}
